@@ -1,0 +1,192 @@
+//go:build verif
+
+package excelize
+
+import (
+	"fmt"
+	"sort"
+	"strconv"
+	"strings"
+)
+
+// verifC16PartNo maps "xl/worksheets/sheet<N>.xml" (with or without a leading
+// slash or the "xl/" prefix) to "<N>"; any other path is returned hex-encoded.
+func verifC16PartNo(p string) string {
+	q := strings.TrimPrefix(p, "/")
+	q = strings.TrimPrefix(q, "xl/")
+	if strings.HasPrefix(q, "worksheets/sheet") && strings.HasSuffix(q, ".xml") {
+		n := strings.TrimSuffix(strings.TrimPrefix(q, "worksheets/sheet"), ".xml")
+		if _, err := strconv.Atoi(n); err == nil {
+			return n
+		}
+	}
+	return "x" + verifHex(p)
+}
+
+// VerifC16Dump prints the internal sheet bookkeeping of a workbook in a
+// canonical one-line form (C16): SheetCount, bookViews.activeTab, the workbook
+// sheet list (name, sheetId, r:id, state), File.sheetMap, the decoded
+// worksheets (tabSelected of the first view and the raw value of cell A1),
+// worksheet parts present in File.Pkg, worksheet overrides of
+// [Content_Types].xml, the workbook relationships and the defined names with
+// their localSheetId. Worksheets named by sheetMap that are not decoded yet
+// are decoded through workSheetReader (as any getter would do); nothing else
+// is modified.
+func VerifC16Dump(f *File) string {
+	var b strings.Builder
+	wb, _ := f.workbookReader()
+	at := -1
+	if wb.BookViews != nil && len(wb.BookViews.WorkBookView) > 0 {
+		at = wb.BookViews.WorkBookView[0].ActiveTab
+	}
+	fmt.Fprintf(&b, "c=%d a=%d S=", f.SheetCount, at)
+	for i, s := range wb.Sheets.Sheet {
+		if i > 0 {
+			b.WriteByte(';')
+		}
+		rid := "x" + verifHex(s.ID)
+		if n, err := strconv.Atoi(strings.TrimPrefix(s.ID, "rId")); err == nil && strings.HasPrefix(s.ID, "rId") {
+			rid = strconv.Itoa(n)
+		}
+		st := "x" + verifHex(s.State)
+		switch s.State {
+		case "":
+			st = "v"
+		case "hidden":
+			st = "h"
+		case "veryHidden":
+			st = "vh"
+		}
+		fmt.Fprintf(&b, "%s:%d:%s:%s", verifHex(s.Name), s.SheetID, rid, st)
+	}
+	// sheetMap, sorted by name bytes
+	names := make([]string, 0, len(f.sheetMap))
+	for n := range f.sheetMap {
+		names = append(names, n)
+	}
+	sort.Strings(names)
+	b.WriteString(" M=")
+	for i, n := range names {
+		if i > 0 {
+			b.WriteByte(';')
+		}
+		fmt.Fprintf(&b, "%s:%s", verifHex(n), verifC16PartNo(f.sheetMap[n]))
+	}
+	// make sure every mapped worksheet is decoded (getter behaviour)
+	for _, n := range names {
+		if _, ok := f.Sheet.Load(f.sheetMap[n]); !ok {
+			_, _ = f.workSheetReader(n)
+		}
+	}
+	// decoded worksheets by path
+	var paths []string
+	f.Sheet.Range(func(k, v interface{}) bool {
+		paths = append(paths, k.(string))
+		return true
+	})
+	sort.Slice(paths, func(i, j int) bool {
+		a, c := verifC16PartNo(paths[i]), verifC16PartNo(paths[j])
+		x, e1 := strconv.Atoi(a)
+		y, e2 := strconv.Atoi(c)
+		if e1 == nil && e2 == nil {
+			return x < y
+		}
+		return a < c
+	})
+	b.WriteString(" P=")
+	for i, p := range paths {
+		if i > 0 {
+			b.WriteByte(';')
+		}
+		sel, val := "n", "-"
+		if w, ok := f.Sheet.Load(p); ok && w != nil {
+			ws := w.(*xlsxWorksheet)
+			if ws.SheetViews != nil && len(ws.SheetViews.SheetView) > 0 {
+				sel = "0"
+				if ws.SheetViews.SheetView[0].TabSelected {
+					sel = "1"
+				}
+			}
+			if len(ws.SheetData.Row) > 0 && len(ws.SheetData.Row[0].C) > 0 && ws.SheetData.Row[0].C[0].V != "" {
+				val = ws.SheetData.Row[0].C[0].V
+			}
+		}
+		fmt.Fprintf(&b, "%s:%s:%s", verifC16PartNo(p), sel, val)
+	}
+	// worksheet parts present in the package store
+	var pk []int
+	var pkOther []string
+	f.Pkg.Range(func(k, v interface{}) bool {
+		p := k.(string)
+		if strings.HasPrefix(p, "xl/worksheets/") {
+			if n, err := strconv.Atoi(verifC16PartNo(p)); err == nil {
+				pk = append(pk, n)
+			} else {
+				pkOther = append(pkOther, verifC16PartNo(p))
+			}
+		}
+		return true
+	})
+	sort.Ints(pk)
+	sort.Strings(pkOther)
+	b.WriteString(" K=")
+	for i, n := range pk {
+		if i > 0 {
+			b.WriteByte(';')
+		}
+		b.WriteString(strconv.Itoa(n))
+	}
+	for _, o := range pkOther {
+		b.WriteString(";" + o)
+	}
+	// worksheet overrides of [Content_Types].xml, in order
+	b.WriteString(" T=")
+	if ct, _ := f.contentTypesReader(); ct != nil {
+		first := true
+		for _, o := range ct.Overrides {
+			if o.ContentType == ContentTypeSpreadSheetMLWorksheet {
+				if !first {
+					b.WriteByte(';')
+				}
+				first = false
+				b.WriteString(verifC16PartNo(o.PartName))
+			}
+		}
+	}
+	// workbook relationships, in order: id:w<part> for worksheets, id:o otherwise
+	b.WriteString(" R=")
+	if rels, _ := f.relsReader(f.getWorkbookRelsPath()); rels != nil {
+		for i, r := range rels.Relationships {
+			if i > 0 {
+				b.WriteByte(';')
+			}
+			id := "x" + verifHex(r.ID)
+			if n, err := strconv.Atoi(strings.TrimPrefix(r.ID, "rId")); err == nil && strings.HasPrefix(r.ID, "rId") {
+				id = strconv.Itoa(n)
+			}
+			if r.Type == SourceRelationshipWorkSheet {
+				fmt.Fprintf(&b, "%s:w%s", id, verifC16PartNo(f.getWorksheetPath(r.Target)))
+			} else {
+				fmt.Fprintf(&b, "%s:o", id)
+			}
+		}
+	}
+	// defined names
+	b.WriteString(" D=")
+	if wb.DefinedNames != nil {
+		for i, dn := range wb.DefinedNames.DefinedName {
+			if i > 0 {
+				b.WriteByte(';')
+			}
+			loc := "-"
+			if dn.LocalSheetID != nil {
+				loc = strconv.Itoa(*dn.LocalSheetID)
+			}
+			fmt.Fprintf(&b, "%s:%s:%s", verifHex(dn.Name), loc, verifHex(dn.Data))
+		}
+	}
+	return b.String()
+}
+
+// VerifC16CheckSheetName exposes checkSheetName (nil error = accepted).
+func VerifC16CheckSheetName(name string) error { return checkSheetName(name) }
